@@ -353,8 +353,15 @@ static void fullCheck(const char *when)
 	}
 }
 
+/* stoCtl(StoCtl_GcLevel, Never) is a one-way latch (store.h: "the demand and automatic gc support is
+ * forever disabled"): the allocator stops keeping the per-quantum tags, so from then on nothing is
+ * collected - whatever level is asked for later - and the audit, which reads the tags, has nothing to
+ * check.  The model follows: no block may ever be reclaimed after the latch. */
+static int gcNever;
+
 static void doAudit(void)
 {
+	if (gcNever) return;
 	nAuditOp++;
 	_dont_assert = 0;
 	stoAudit();
@@ -627,7 +634,11 @@ int main(int argc, char **argv)
 			}
 			break;
 		case 'O': sscanf(line, "O %lu", &a); simSbrkForeignBytes(a); break;	/* foreign break movement by bytes */
-		case 'v': sscanf(line, "v %lu", &a); stoCtl(StoCtl_GcLevel, (int) a); break;
+		case 'v':
+			sscanf(line, "v %lu", &a);
+			if (a == 0) gcNever = 1;
+			stoCtl(StoCtl_GcLevel, (int) a);
+			break;
 		case 'w': sscanf(line, "w %lu", &a); if (!washSet && !nB) { stoCtl(StoCtl_Wash, (int) a); washSet = 1; } break;
 		case 'k': {	/* a chain of n blocks, each holding the previous one through its FIRST word
 				 * (not the last one: the marker cannot follow it by tail call); only the
